@@ -309,12 +309,12 @@ func lexUint(handler func(*Lexer, uint64) stateFn) stateFn {
 		for {
 			switch b := l.next(); {
 			case '0' <= b && b <= '9':
-				n := value*10 + uint64(b-'0')
-				if n < value {
+				d := uint64(b - '0')
+				if value > (math.MaxUint64-d)/10 {
 					l.err = errOverflow
 					return nil
 				}
-				value = n
+				value = value*10 + d
 			case b == eof:
 				break loop
 			default:
